@@ -318,6 +318,22 @@ def eq_covers_slots(prog: Program, res, rule: str, ci: ClassInfo, *, exceptions:
             key_extra=f"eq-partial-{partial[0]}",
         )
         return
+    # one belief per method: if one array comparison of this __eq__ treats NaN as equal (undefined bins / samples are
+    # stored as NaN), every array comparison in it must — otherwise an object with an undefined entry is not equal to
+    # itself, to its copy, or to the same selection taken in another order
+    aeq = [x for x in walk_no_nested(eq.node) if isinstance(x, ast.Call) and (dotted(x.func) or "").split(".")[-1] in ("array_equal", "allclose", "array_equiv")]
+    nan_safe = [x for x in aeq if isinstance(kwarg(x, "equal_nan"), ast.Constant) and kwarg(x, "equal_nan").value is True]
+    if nan_safe and len(nan_safe) != len(aeq):
+        odd = next(x for x in aeq if x not in nan_safe)
+        res.violation(
+            rule,
+            eq,
+            odd,
+            f"{ci.name}.__eq__ compares `{unparse(odd.args[0])[:30]}` without equal_nan=True while the other array comparison(s) of the method use it: a container with an undefined (NaN) entry there "
+            "does not compare equal to itself or to its copy",
+            key_extra=f"eq-nan-inconsistent-{ci.name}",
+        )
+        return
     missing = [s for s in slots if s not in read and s not in exceptions and not generic]
     if missing:
         res.violation(rule, eq, eq.node, f"{ci.name}.__eq__ does not compare attribute(s) {missing}: objects differing only there compare equal", key_extra=f"eq-misses-{'-'.join(missing)}")
